@@ -1,11 +1,12 @@
 SPECIFICATION Spec
 CONSTANTS
   MaxSegs = 3
-  SegAlphabet = {"", ".", "..", "app", "public", "admin", "secret.gmi", "open.gmi", "index.gmi", "x", "%2e%2e", "app%2fsecret.gmi", "%61pp", "app-x", "apple.gmi", "keys.gmi", "app%252fsecret.gmi", "%252e%252e", "app/%FF/..", "app%5csecret.gmi"}
+  SegAlphabet = {"", ".", "..", "app", "public", "admin", "secret.gmi", "open.gmi", "index.gmi", "x", "%2e%2e", "app%2fsecret.gmi", "%61pp", "app-x", "apple.gmi", "keys.gmi", "app%252fsecret.gmi", "%252e%252e", "app/%FF/..", "app%5csecret.gmi", "caproot"}
   RuleLists <- MCRules
   Certs = {"c1", "c2"}
   DevMatchRawPath = FALSE
   DevEmptyListMeansNoList = FALSE
+  DevClimbAndReturn = FALSE
 INVARIANT AppliedToServed
 INVARIANT RefusalIs6x
 CHECK_DEADLOCK FALSE
